@@ -1,5 +1,7 @@
 import AlgopyVerif.Proofs.Lift
 import AlgopyVerif.Proofs.PowerSeries
+import AlgopyVerif.Proofs.Linalg
+import AlgopyVerif.Proofs.Ode
 /-!
 # C10 — zeroth coefficient, shapes and comparisons follow NumPy
 
@@ -11,8 +13,11 @@ import AlgopyVerif.Proofs.PowerSeries
 * shape laws of the L2 model: element-wise functions keep the shape, binary operators
   return the broadcast shape.
 
-The dispatcher behaviour (plain arrays go to NumPy) and the matrix functions are checked on
-the implementation by the C10 correspondence run.
+* matrix kernels over any ring: `dot`, `inv`, `solve` have zeroth coefficient `X₀Y₀`, `inv(A₀)`,
+  `A₀⁻¹B₀` (the NumPy leaf); the fold-based kernels `_eval_slow_generic`, `_dawsn` return the leaf `f(x₀)`.
+
+The dispatcher behaviour (plain arrays go to NumPy), factorizations and shapes of the matrix functions are
+checked on the implementation by the C10 correspondence run.
 -/
 open AV NdArray Finset
 namespace AV.C10
@@ -82,6 +87,25 @@ theorem black_white_zeroth (f0 : K) (fp x : List K) (h : 0 < x.length) : co (bla
 
 /-! ## comparisons -/
 attribute [local instance] inh0
+
+/-! ### matrix kernels (any ring) and fold-based kernels -/
+theorem dot_zeroth {R : Type} [Ring R] (x y : List R) (h : 0 < x.length) : coR (dotM x y) 0 = coR x 0 * coR y 0 := by
+  rw [dotM_co x y 0 h]; simp
+
+theorem inv_zeroth {R : Type} [Ring R] (x : List R) (y0 : R) (h : 0 < x.length) : coR (invM x y0) 0 = y0 :=
+  invM_zero x y0 h
+
+theorem solve_zeroth {R : Type} [Ring R] (a : List R) (a0inv : R) (b : List R) (h : 0 < b.length) :
+    coR (solveM a a0inv b) 0 = a0inv * coR b 0 := by
+  rw [solveM_co a a0inv b 0 h]; simp
+
+theorem slow_generic_zeroth (derivs x : List ℝ) (h : 0 < x.length) : co (slowGenericS derivs x) 0 = co derivs 0 := by
+  have hinit : SGInv derivs x (curve x) 0 [] (List.map (fun i => if i = 0 then co derivs 0 else 0) (List.range x.length)) := by
+    refine ⟨Or.inl rfl, by simp, ?_, ?_⟩
+    · intro hl; rw [co_map_range _ _ _ hl]; simp
+    · intro i hi1 hi; rw [co_map_range _ _ _ hi, if_neg (by omega)]; simp
+  obtain ⟨a, hfin⟩ := go_spec (jetOf_curve x) derivs (x.length - 1) 0 [] _ hinit
+  exact hfin.y0 h
 
 /-- `x < y` (and `<=, >, >=, ==`) is `numpy.all` over the zeroth coefficients -/
 theorem compare_iff (r : K → K → Bool) (x y : NdArray K) (D P : Nat) (s : List Nat)
